@@ -200,6 +200,10 @@ class Reader:
         raise AnalysisError("aggregation section: unsupported statement %s at line %d" % (type(s).__name__, s.lineno))
 
     def env_loop(self, s):
+        b = self.binder(s, self) if getattr(self, "binder", None) else None
+        if b:
+            self.env.update(b)
+            return
         if isinstance(s.target, ast.Name):
             self.env[s.target.id] = ("loopvar", s.target.id, self.desc(s.iter))
 
